@@ -224,7 +224,11 @@ pub fn gen_tx(r: &mut Rng, focus: Focus) -> tir::Tx {
     let n_mint = match focus { Focus::C08 => r.below(3), Focus::C10 => r.below(2), _ => r.below(2) } as usize;
     let n_burn = match focus { Focus::C08 => r.below(2), Focus::C10 => r.below(2), _ => if r.chance(1, 4) { 1 } else { 0 } } as usize;
     let mints: Vec<_> = (0..n_mint).map(|_| { let p = *r.pick(&pols); mk_mint(r, p) }).collect();
-    let burns: Vec<_> = (0..n_burn).map(|_| { let p = if focus == Focus::C10 { 0x11 } else { *r.pick(&pols) }; mk_mint(r, p) }).collect();
+    let mut burns: Vec<_> = (0..n_burn).map(|_| { let p = if focus == Focus::C10 { 0x11 } else { *r.pick(&pols) }; mk_mint(r, p) }).collect();
+    if focus == Focus::C10 && !mints.is_empty() && r.chance(1, 3) {
+        // burn exactly what is minted: the mint field cancels to nothing
+        burns = mints.iter().map(|m| tir::Mint { amount: m.amount.clone(), redeemer: m.redeemer.clone() }).collect();
+    }
     // directives
     let mut adhoc = vec![];
     let n_w = match focus { Focus::C08 => r.below(3), _ => if r.chance(1, 5) { 1 } else { 0 } } as usize;
